@@ -66,3 +66,5 @@ def run(ctx):
         if tr is not None:
             ctx.hist("k", tr.cfg["k"])
             ctx.count(s, nontrivial=len([1 for v in tr.sent.values() if v]) >= 2)
+    if ctx.thorough() and not ctx.replay:
+        ls.stress(ctx, ["join"], 15, {"stage": "Join"})
